@@ -6,8 +6,8 @@
    (1..n objectives, any weights), any similarity operator meeting the stated hypotheses.
    The archive stores values (deep copies); see the level note for what that means. *)
 From Coq Require Import List ZArith Bool.
-From DV Require Import Base.PyTuple Base.PyList Model.C08_Archive
-  Proofs.C08_Lists Proofs.C08_Refine Proofs.C08_Hof Proofs.C08_Pf.
+From DV Require Import Base.PyTuple Base.PyList Model.C01_Fitness Model.C08_Archive
+  Proofs.C08_Lists Proofs.C08_Refine Proofs.C08_Hof Proofs.C08_Pf Proofs.C08_More.
 Import ListNotations.
 Local Open Scope Z_scope.
 
@@ -93,6 +93,22 @@ Theorem C08_hof_all_when_room :
 Proof. exact hof_all_when_room_thm. Qed.
 Print Assumptions C08_hof_all_when_room.
 
+(* size: the hall of fame is full as soon as m pairwise-distinct individuals were shown; otherwise
+   it holds at least as many members as any pairwise-distinct sample of what was shown (so, with
+   C08_hof_inv, exactly min(m, number of distinct individuals shown)); similar an equivalence *)
+Theorem C08_hof_size :
+  forall (ind : Type) (fitness : ind -> list Z) (similar : ind -> ind -> bool),
+  (forall x y, similar x y = similar y x) ->
+  (forall x, similar x x = true) ->
+  (forall x y z, similar x y = true -> similar y z = true -> similar x z = true) ->
+  forall (m : Z) (batches : list (list ind)),
+  1 <= m ->
+  (forall a b, In a (concat batches) -> In b (concat batches) -> similar a b = true -> fitness a = fitness b) ->
+  exists h, hof_run ind fitness similar m batches = Some h /\
+    forall l, nosim ind similar l -> incl l (concat batches) -> zlen l <= zlen (items h) \/ zlen (items h) = m.
+Proof. exact hof_size_thm. Qed.
+Print Assumptions C08_hof_size.
+
 (* ---------------------------------------------------------------- ParetoFront *)
 
 (* pf_inv: never raises, keys mirror items, lexicographic order, members mutually non-dominated;
@@ -127,6 +143,47 @@ Theorem C08_pf_exact :
        fitness a = fitness b -> similar a b = false).
 Proof. exact pf_exact_thm. Qed.
 Print Assumptions C08_pf_exact.
+
+(* ---------------------------------------------------------------- the rest of the interface *)
+
+(* any history of update / insert / remove(any index) / clear on either class: every state reached
+   without an exception has keys = reversed fitnesses of items, and items best first *)
+Theorem C08_api_mirror_sorted :
+  forall (ind : Type) (fitness : ind -> list Z) (similar : ind -> ind -> bool)
+         (kind : option Z) (ops : list (op ind)),
+  (match kind with Some m => 1 <= m | None => True end) ->
+  Forall (fun o => match o with
+                   | Some h => keys h = rev (map fitness (items h)) /\ desc ind fitness (items h)
+                   | None => True end)
+         (trace ind fitness similar kind empty ops).
+Proof. exact api_good. Qed.
+Print Assumptions C08_api_mirror_sorted.
+
+(* remove with an index outside [-len, len) raises *)
+Theorem C08_remove_out_of_range :
+  forall (ind : Type) (h : hof ind) (i : Z), i < - hlen h \/ hlen h <= i -> remove ind h i = None.
+Proof. exact remove_out_of_range. Qed.
+Print Assumptions C08_remove_out_of_range.
+
+(* clear(): the archive after a history of updates and clears is the archive of the batches shown
+   after the last clear, so all theorems above apply with seen = those batches *)
+Theorem C08_clear_resets :
+  forall (ind : Type) (fitness : ind -> list Z) (similar : ind -> ind -> bool)
+         (kind : option Z) (us : list (uop ind)),
+  (match kind with Some m => 1 <= m | None => True end) ->
+  final ind fitness similar kind us =
+  match kind with
+  | Some m => hof_run ind fitness similar m (after_last_clear ind us [])
+  | None => pf_run ind fitness similar (after_last_clear ind us [])
+  end.
+Proof. exact final_is_run. Qed.
+Print Assumptions C08_clear_resets.
+
+(* Fitness.dominates of the C01 model with the default slice is fit_dom on the weighted values *)
+Theorem C08_dominates_is_C01 : forall a b : C01_Fitness.fit,
+  C01_Fitness.dominates a b C01_Fitness.slice_all = fit_dom (C01_Fitness.wv a) (C01_Fitness.wv b).
+Proof. exact dominates_default_slice. Qed.
+Print Assumptions C08_dominates_is_C01.
 
 (* the meaning of the comparison functions used above (C01): lexicographic order / dominance *)
 Theorem C08_order_meaning : forall a b : list Z,
